@@ -48,7 +48,40 @@ def c05(ctx, spec):
     for d in (1, 2, 3, 4): ctx.run_sharded('c05_d%d' % d, n, args=['--maxext', 5 if d < 4 else 4, '--maxops', 5], shards=3)
     for d in (1, 2, 3): ctx.run_sharded('c05s_d%d' % d, n // 2, args=['--maxext', 4, '--maxops', 4], shards=2)
 
+# ---------------------------------------------------------------------------------------------- E-HIST: C04, C06, C08, C10
+def hist_builds(cfgs):
+    return [dict(name='hist_t%d_d%d_tr%d' % (t, d, tr), src='harness/hist.cpp', cfg='asan', defs=['H_T=%d' % t, 'H_D=%d' % d, 'H_TR=%d' % tr]) for (t, d, tr) in cfgs]
+
+def hist_run(ctx, cfgs, n, extra=(), shards=2):
+    ctx.build(hist_builds(cfgs))
+    for (t, d, tr) in cfgs:
+        ctx.run_sharded('hist_t%d_d%d_tr%d' % (t, d, tr), n, args=['--prop', ctx.pid, '--maxext', 3 if d < 4 else 2, '--steps', T(ctx, 12, 40)] + list(extra), shards=shards)
+    other = {k: v for k, v in ctx.counters.items() if k.startswith('otherprop:')}
+    if other: ctx.extra['violations_of_other_properties_seen_by_this_engine (reported by their own checks)'] = other
+
+def c04(ctx, spec):
+    hist_run(ctx, [(1, 1, 0), (1, 2, 0), (1, 3, 0), (1, 4, 0), (0, 2, 0), (0, 3, 0), (2, 1, 0), (2, 2, 0)], T(ctx, 10000, 200000))
+def c06(ctx, spec):
+    hist_run(ctx, [(1, 1, 0), (1, 2, 0), (1, 3, 0), (1, 4, 0), (0, 1, 0), (0, 2, 0), (2, 2, 0), (2, 3, 0)], T(ctx, 10000, 200000))
+def c08(ctx, spec):
+    hist_run(ctx, [(1, 1, 0), (1, 2, 0), (1, 3, 0), (1, 4, 0), (0, 1, 0), (0, 2, 0), (0, 3, 0), (2, 2, 0)], T(ctx, 10000, 200000))
+def c10(ctx, spec):
+    cfgs = [(1, 2, tr) for tr in range(16)] + [(1, 1, 0), (1, 1, 7), (1, 3, 0), (1, 3, 7)]
+    hist_run(ctx, cfgs, T(ctx, 5000, 100000), extra=['--vary-alloc'], shards=1 if ctx.tier == 'quick' else 2)
+
+HIST_RULE = ('histories (3..12 steps quick, ..40 thorough) over a pool of 4 owning arrays of one (element type, rank, allocator traits): 26 operation kinds (sizing/fill/allocator-extended/copy/move/view/init-list/iterator constructors, copy/move/self assignment over '
+             'every prior state, assignment from views/other element type/init lists/ranges, swap, decay, 3 reextent overloads, clear, ={}, reshape, assign(first,last), element writes, destroy); unique ids as values; extents 0..3. '
+             'After EVERY step: each live array vs. its model value, storage ranges pairwise disjoint, live-object registry == sum of num_elements, outstanding blocks == non-empty arrays with matching sizes, block owner == get_allocator(), get_allocator() == what the traits prescribe. ')
+
 REGISTRY = {
+    'C04': dict(fn=c04, level='exploration', rule=HIST_RULE + 'C04 oracle: value model, disjoint storage, moves touch no element (special-member counters), moved-from sources empty and reusable. distinct = hash(op-kind sequence incl. prior-state class); non-trivial = >=3 steps incl. an assignment over existing state',
+                assumptions=['0-D arrays are exercised by a separate reduced harness (their interface lacks most operations)', 'an empty iterator pair for assign/ctor(first,last) is excluded (the library evaluates *first on it)']),
+    'C06': dict(fn=c06, level='exploration', rule=HIST_RULE + 'C06 oracle: model intersection of old/new extents on index tuples for reextent (fill value or value-initialised; unspecified for trivially default-constructible without fill; the rvalue overload only has to produce the extents), no-op reextent keeps data_elements(), clear/={}/reshape/assign/init-list contents. distinct/non-trivial as C04',
+                assumptions=['reextent() && discards contents by design (move-reextent): only extents and validity are required for it']),
+    'C08': dict(fn=c08, level='exploration', rule=HIST_RULE + 'C08 oracle: tracked<int> registry (construct over live / use or destroy of dead objects, cookie), ledger (unknown/size-mismatched deallocate), quiescent invariants after every step, nothing outstanding at the end; poison re-read proves sizing ctor / fill-less reextent did not write trivial elements. distinct/non-trivial as C04',
+                assumptions=['construct/destroy routing (allocator_traits vs uninitialized_*) is not judged, only element lifetimes and blocks']),
+    'C10': dict(fn=c10, level='exploration', rule=HIST_RULE + 'C10 oracle: ledger_alloc<T, POCCA, POCMA, POCS, always_equal> with instance ids over all 16 trait combinations and 3 instance ids; expected-allocator model per step (select_on_container_copy_construction hop counter); every block must be released through an allocator equal to its producer. distinct/non-trivial as C04',
+                assumptions=['swap of unequal allocators is only generated when POCS (precondition)', 'the allocator of decay()/unary plus results is not prescribed by the property: adopted as reported']),
     'C05': dict(fn=c05, level='exploration',
                 rule='destination = mutable view reached by a random view program (as C01) over a guarded root filled with unique ids; source of equal extents from 8 layout kinds (array, transposed/unrotated/rotated/reversed storage, padded block, strided-of-doubled, subarray()) with unique ids; '
                      '13 overload kinds (lvalue/rvalue destination = const/mutable/rvalue source, other element type, elements()=elements(), fill, swap of two views, initializer lists, vector ranges, element_moved(), move()); int and std::string elements; '
